@@ -281,7 +281,24 @@ impl WorldC {
         if self.msigs.is_empty() {
             return;
         }
-        let members_before = self.cur_members.clone();
+        // membership is read at the instant of the call: a caller the group gained earlier in this very transaction
+        // (a proposal that adds a member whose hook then relays an Execute) is a member for that call
+        let mut members_before = self.cur_members.clone();
+        for ev in evs {
+            if let Event::Frame(f) = ev {
+                if f.addr == self.group {
+                    for sn in [&f.pre, &f.post] {
+                        if let Some(c) = sn.cw4() {
+                            if c.ok {
+                                for (a, w) in crate::c_group::members_map(&c.members) {
+                                    members_before.entry(a).or_insert(w);
+                                }
+                            }
+                        }
+                    }
+                }
+            }
+        }
         for mi in 0..self.msigs.len() {
             let m = self.msigs[mi].clone();
             let mut expected: Vec<String> = vec![];
@@ -781,7 +798,7 @@ impl WorldC {
             }
             match p.expires {
                 Expiration::AtHeight(h) => self.deadlines_h.push(h),
-                Expiration::AtTime(t) => self.deadlines_t.push(t.seconds()),
+                Expiration::AtTime(t) => self.deadlines_t.push(t.nanos()),
                 _ => {}
             }
         }
@@ -1103,7 +1120,7 @@ impl WorldC {
         let dh = (max_h - b.height) + 2;
         let dt = (max_t - b.time.seconds()) + 2;
         if self.msigs.iter().any(|m| !m.props.is_empty()) {
-            self.apply_inner(&Step::Block { dh, dt }, out);
+            self.apply_inner(&Step::Block { dh, dt, dn: 0 }, out);
         }
         if !out.is_empty() {
             return;
@@ -1246,14 +1263,14 @@ impl WorldC {
             Duration::Height(h) => (h + 1, 0),
             Duration::Time(t) => (1, t + 1),
         };
-        self.apply_inner(&Step::Block { dh, dt }, out);
+        self.apply_inner(&Step::Block { dh, dt, dn: 0 }, out);
         // every pending claim (including older ones) is mature now unless its period is longer: jump far
         let far = self.deadlines_h.iter().max().cloned().unwrap_or(0);
         let far_t = self.deadlines_t.iter().max().cloned().unwrap_or(0);
         let b = self.chain.block();
         let ddh = far.saturating_sub(b.height) + 1;
-        let ddt = far_t.saturating_sub(b.time.seconds()) + 1;
-        self.apply_inner(&Step::Block { dh: ddh, dt: ddt }, out);
+        let ddt = (far_t / crate::util::NS).saturating_sub(b.time.seconds()) + 2;
+        self.apply_inner(&Step::Block { dh: ddh, dt: ddt, dn: 0 }, out);
         for a in self.universe.clone() {
             let has = self.unbonds.get(&a).map(|r| r.iter().any(|x| !x.paid && x.amount > 0)).unwrap_or(false);
             if has {
